@@ -68,7 +68,7 @@ inductive Sk
   | raise
   | fin (body f : Sk)         -- try: body finally: f
   | tryExc (body h : Sk)      -- try: body except: h      (h = the alternatives of all handlers)
-deriving Repr
+deriving Repr, DecidableEq
 
 /-- big-step traces -/
 inductive Run : Sk → List Ev → Out → Prop
@@ -268,6 +268,21 @@ def releasedOnEveryExit (acquire release : Ev → Bool) (sk : Sk) : Bool :=
   | none => false
   | some r => (r.fall ++ r.brk ++ r.cont ++ r.ret ++ r.exc).all fun s => s == 0 || s == 2
 
+/-- "has done it": state 1 = an action satisfying `p` has happened -/
+def didMon (p : A → Bool) : Mon := fun s e =>
+  match e with
+  | .aw _ => some s
+  | .act a => some (if p a then 1 else s)
+
+/-- every way the skeleton ends NORMALLY (falls through or returns) has performed an action satisfying `p`
+(`everyNormalEndDid_sound`, Proofs/Coop.lean) -/
+def everyNormalEndDid (p : A → Bool) (sk : Sk) : Bool :=
+  match scan (didMon p) 4 sk [0] with
+  | none => false
+  | some r => (r.fall ++ r.ret).all (· == 1)
+
+def isSetOf (name : String) (a : A) : Bool := a.kind == .set && a.name == name
+
 /-! ### "this piece of code never suspends" -/
 
 /-- number of suspension points in a skeleton -/
@@ -317,6 +332,32 @@ def finallyAwaits : Sk → List String
   | .fin a f => finallyAwaits a ++ awaitsIn f
   | .tryExc a b => finallyAwaits a ++ finallyAwaits b
   | _ => []
+
+/-! ### an awaitable method and its blocking twin -/
+
+/-- the blocking twin of an awaitable skeleton: every await becomes a plain call, renamed by `ren` -/
+def blockingTwin (ren : String → String) : Sk → Sk
+  | .ev (.aw n) => .ev (.act ⟨.call, ren n⟩)
+  | .ev (.act a) => .ev (.act a)
+  | .seq a b => .seq (blockingTwin ren a) (blockingTwin ren b)
+  | .alt a b => .alt (blockingTwin ren a) (blockingTwin ren b)
+  | .loop b => .loop (blockingTwin ren b)
+  | .fin a b => .fin (blockingTwin ren a) (blockingTwin ren b)
+  | .tryExc a b => .tryExc (blockingTwin ren a) (blockingTwin ren b)
+  | s => s
+
+def seqApp : Sk → Sk → Sk
+  | .seq a b, c => .seq a (seqApp b c)
+  | a, c => .seq a c
+
+/-- sequences re-associated to the right (`(a; b); c` and `a; (b; c)` are the same code) -/
+def rassoc : Sk → Sk
+  | .seq a b => seqApp (rassoc a) (rassoc b)
+  | .alt a b => .alt (rassoc a) (rassoc b)
+  | .loop b => .loop (rassoc b)
+  | .fin a b => .fin (rassoc a) (rassoc b)
+  | .tryExc a b => .tryExc (rassoc a) (rassoc b)
+  | s => s
 
 /-! ### the event loop as an adversary -/
 
